@@ -9,7 +9,7 @@ def pick(crates, name, prefer_lib=True):
     return cs[0] if cs else None
 
 
-def run(f_on, f_off, nonce, f_allfeat=None):
+def run(f_on, f_off, nonce, f_allfeat=None, positive=None):
     out = {'findings': [], 'errors': [], 'evidence': {}, 'prim_summary': {}}
     configs = []
     for label, d in (('debug-assertions=on', f_on), ('debug-assertions=off', f_off), ('all-features', f_allfeat)):
@@ -63,5 +63,21 @@ def run(f_on, f_off, nonce, f_allfeat=None):
             ev['rules'].setdefault(r, v)
         if getattr(ctx, 'conv', None):
             ev.setdefault('conv', {})[label] = ctx.conv
+    # positive controls: zero-count rules must fire on the fixture
+    if positive is not None:
+        try:
+            pc = pick(mirlib.load_crates(positive, nonce), 'verif_positive_controls')
+            c2 = src_rules.Ctx()
+            src_rules.scan_nondeterminism(c2, pc)
+            hits = {f.key.split('|')[-2] + ':' + f.key.split('|')[-1] for f in c2.findings}
+            need = [('HashMap iteration', any('hash' in h.lower() for h in hits)), ('env read', any('std::env::var' in h for h in hits))]
+            hq = [1 for b in pc.bodies for bb, t in b.calls() if mirlib.callee_path(t) in src_rules.HOST_QUERIES]
+            need.append(('host layout query', bool(hq)))
+            for what, ok in need:
+                if not ok:
+                    out['errors'].append('positive control not flagged: %s (a rule with expected count zero cannot fire)' % what)
+            ev['positive_controls'] = [w for w, ok in need if ok]
+        except Exception as e:
+            out['errors'].append('positive controls: %s' % e)
     out['evidence'] = ev
     return out
